@@ -1087,13 +1087,13 @@ def run(ctx):
     cases = []
     cases += directed(rng)
     cases += [stall_directed(rng, 1), stall_directed(rng, 2)]
-    for _ in range(ctx.n(4, 40)):
-        cases.append(gen_stall(rng, big=ctx.thorough()))
+    for _ in range(ctx.n(4, 24)):
+        cases.append(gen_stall(rng))
     tl = tail_loss_case(rng)
     cases.append(tl)
-    for _ in range(ctx.n(24, 190)):
+    for _ in range(ctx.n(24, 140)):
         cases.append(gen_random(rng, big=ctx.thorough()))
-    for _ in range(ctx.n(10, 70)):
+    for _ in range(ctx.n(10, 50)):
         cases.append(gen_soak(rng, big=ctx.thorough()))
     results = []
     kept = []
